@@ -231,7 +231,7 @@ def run(ctx):
         return
     t = "thorough" if ctx.thorough else "quick"
     cases = []
-    for grp in ("ew", "contract", "unary"):
+    for grp in ("ew", "contract", "unary") + (("tensor",) if ctx.thorough else ()):   # quick: tensorprod is part of the contract configuration
         res = ctx.tlc_must_hold("FeShapes", f"FeShapes_{grp}_{t}.cfg", what="TypeRule", workers=8, timeout=3000)
         cases += res.prints.get("CASE", [])
     ctx.pmap(_job, [(i + 1000 * ctx.seed, c) for i, c in enumerate(cases)])
